@@ -26,6 +26,8 @@ import (
 //	R-guarded-value     every use of a map loaded from a member that is updated in place under a lock holds that lock,
 //	                    also after the value was returned, passed on or captured
 //	R-exception         publish-by-close idiom recognised by shape
+//	R-fanout-write      goroutines started in a loop write variables captured by reference only under a lock
+//	R-package-state     outside initialisation nothing mutates a package-level variable (or an unsafe object held in one) without a lock
 func init() { Registry["C20"] = checkC20 }
 
 // The one recognised idiom for an unsynchronised field ("publish by close"): the field is written in exactly one
@@ -197,6 +199,8 @@ func checkC20(c *Ctx) {
 	c20GuardedValue(c, guards)
 	c20LongLivedPlain(c, accs)
 	c20WriterJoined(c)
+	c20PackageState(c)
+	c20FanoutWrite(c)
 	// a message that keeps the caller's map is marshalled later by another goroutine while the caller may reuse the map
 	c05ParamsCopied(c, "R-params-copied")
 }
@@ -704,4 +708,170 @@ func holdsRecordsOf(T, M *types.Named) bool {
 		}
 	}
 	return false
+}
+
+// ---------------------------------------------------------------- R-package-state
+// A package-level variable is shared by every goroutine of the process — every client, every server, every call. The
+// library may read such variables (tables, defaults, sentinels), but outside package initialisation nothing mutates one
+// without holding a lock: no assignment to the variable, no in-place update of the map / slice / struct it holds, and no
+// call of a method on a value loaded from it whose type is documented as not safe for concurrent use (a *rand.Rand made
+// with rand.New, a bytes.Buffer, a bufio or encoding object, a hash): that is a data race the moment two calls overlap.
+var unsafeSharedTypes = map[string]bool{
+	"*math/rand.Rand": true, "*bytes.Buffer": true, "*strings.Builder": true, "*bufio.Writer": true, "*bufio.Reader": true,
+	"*bufio.Scanner": true, "*encoding/json.Encoder": true, "*encoding/json.Decoder": true, "hash.Hash": true,
+	"hash.Hash32": true, "hash.Hash64": true, "*math/rand/v2.Rand": true, "*bytes.Reader": true, "*strings.Reader": true,
+	"*text/template.Template": false,
+}
+
+func c20PackageState(c *Ctx) {
+	nGlobals, nUses := 0, 0
+	seenG := map[*ssa.Global]bool{}
+	// what runs on behalf of a client or server object: everything reachable from a method of a library type. (A
+	// package-level configuration setter that only the application calls, before it starts using the library, is not.)
+	var roots []*ssa.Function
+	for _, fn := range c.P.LibFns {
+		if fn.Signature.Recv() != nil {
+			roots = append(roots, fn)
+		}
+	}
+	onBehalf := c.Reach(roots...)
+	for _, fn := range c.P.LibFns {
+		if !onBehalf[fn] {
+			continue
+		}
+		if fn.Name() == "init" || strings.HasPrefix(fn.Name(), "init#") || (fn.Parent() != nil && fn.Parent().Name() == "init") {
+			continue
+		}
+		ir.EachInstr(fn, func(_ *ssa.BasicBlock, _ int, in ssa.Instruction) {
+			var g *ssa.Global
+			report := func(what string, at ssa.Instruction) {
+				held := c.Locks().At(at)
+				nUses++
+				c.R.Check(len(held) > 0, "R-package-state", sprintf("%s of package variable %s in %s", what, g.Name(), fname(fn)), c.Pos(at.Pos()),
+					"made under a lock",
+					sprintf("%s performs a %s of the package-level variable %s without holding any lock: the variable is shared by every goroutine of the process, so two overlapping calls race on it (Go memory model; for a generator or buffer the state is corrupted)", fname(fn), what, g.Name()))
+			}
+			switch x := in.(type) {
+			case *ssa.Store:
+				if gg, ok := x.Addr.(*ssa.Global); ok && gg.Pkg != nil && strings.HasPrefix(gg.Pkg.Pkg.Path(), ir.RootPath) {
+					g = gg
+					report("assignment", in)
+					return
+				}
+				// in-place update through a value loaded from a global
+				if gg := globalBase(x.Addr, 0); gg != nil && gg.Pkg != nil && strings.HasPrefix(gg.Pkg.Pkg.Path(), ir.RootPath) {
+					if _, direct := x.Addr.(*ssa.Global); !direct {
+						g = gg
+						report("in-place update", in)
+					}
+				}
+			case *ssa.MapUpdate:
+				if gg := globalBase(x.Map, 0); gg != nil && gg.Pkg != nil && strings.HasPrefix(gg.Pkg.Pkg.Path(), ir.RootPath) {
+					g = gg
+					report("map update", in)
+				}
+			case *ssa.Call:
+				cc := x.Common()
+				var recv ssa.Value
+				if cc.IsInvoke() {
+					recv = cc.Value
+				} else if sc := ir.StaticCallee(x); sc != nil && sc.Signature.Recv() != nil && len(cc.Args) > 0 {
+					recv = cc.Args[0]
+				}
+				if recv == nil || !unsafeSharedTypes[ir.TypeStr(recv.Type())] {
+					if b, ok := cc.Value.(*ssa.Builtin); ok && b.Name() == "delete" && len(cc.Args) > 0 {
+						if gg := globalBase(cc.Args[0], 0); gg != nil && gg.Pkg != nil && strings.HasPrefix(gg.Pkg.Pkg.Path(), ir.RootPath) {
+							g = gg
+							report("map delete", in)
+						}
+					}
+					return
+				}
+				if gg := globalBase(recv, 0); gg != nil && gg.Pkg != nil && strings.HasPrefix(gg.Pkg.Pkg.Path(), ir.RootPath) {
+					g = gg
+					report("call of "+ir.CallName(x)+" on the value", in)
+				}
+			case *ssa.UnOp:
+				if gg, ok := x.X.(*ssa.Global); ok && gg.Pkg != nil && strings.HasPrefix(gg.Pkg.Pkg.Path(), ir.RootPath) && !seenG[gg] {
+					seenG[gg] = true
+					nGlobals++
+				}
+			}
+		})
+	}
+	if nGlobals < 5 {
+		c.R.Break("R-package-state: only %d package-level variables of the library are read outside initialisation", nGlobals)
+	}
+	c.R.Hold("R-package-state", "package-level variables of the library", "", sprintf("%d variables read outside package initialisation, %d mutating uses examined", nGlobals, nUses))
+}
+
+// ---------------------------------------------------------------- R-fanout-write
+// A closure started with `go` inside a loop runs as several goroutines at once. A variable of the enclosing function
+// that the closure captures by reference (a result variable, a counter, an error) is then shared by all of them: every
+// plain store to it — or update of a map it holds — inside the closure must be made under a lock taken in the closure.
+// Joining the goroutines afterwards (WaitGroup) orders them with the parent, not with one another.
+func c20FanoutWrite(c *Ctx) {
+	nGo, nWrites := 0, 0
+	for _, fn := range c.P.LibFns {
+		ir.EachInstr(fn, func(_ *ssa.BasicBlock, _ int, in ssa.Instruction) {
+			g, ok := in.(*ssa.Go)
+			if !ok || !flow.InCycle(g.Block()) {
+				return
+			}
+			mc, ok := g.Call.Value.(*ssa.MakeClosure)
+			if !ok {
+				return
+			}
+			body, ok := mc.Fn.(*ssa.Function)
+			if !ok {
+				return
+			}
+			nGo++
+			for i, b := range mc.Bindings {
+				al, ok := b.(*ssa.Alloc)
+				if !ok || i >= len(body.FreeVars) {
+					continue
+				}
+				// created per iteration (a loop-local copy) → private to this goroutine
+				if flow.InCycle(al.Block()) && sameLoop(al.Block(), g.Block()) {
+					continue
+				}
+				fv := body.FreeVars[i]
+				if fv.Referrers() == nil {
+					continue
+				}
+				for _, r := range *fv.Referrers() {
+					var what string
+					switch y := r.(type) {
+					case *ssa.Store:
+						if y.Addr == ssa.Value(fv) {
+							what = "assignment"
+						}
+					case *ssa.UnOp:
+						// a map / slice held in the variable, updated in place
+						if y.Referrers() != nil {
+							for _, rr := range *y.Referrers() {
+								if mu, ok := rr.(*ssa.MapUpdate); ok && mu.Map == ssa.Value(y) {
+									what = "map update"
+									r = mu
+								}
+							}
+						}
+					}
+					if what == "" {
+						continue
+					}
+					nWrites++
+					held := c.Locks().At(r)
+					c.R.Check(len(held) > 0, "R-fanout-write", sprintf("%s to the captured variable %s in a goroutine started in a loop by %s", what, al.Comment, fname(fn)), c.Pos(r.Pos()),
+						"made under a lock taken by the goroutine",
+						sprintf("%s starts a goroutine per iteration, and each of them performs a plain %s to %s, a variable of %s captured by reference, without holding a lock: two of these goroutines write it concurrently — a data race (a torn interface value for an error); joining them afterwards does not order them with one another", fname(fn), what, al.Comment, fname(fn)))
+				}
+			}
+		})
+	}
+	c.R.Hold("R-fanout-write", "goroutines started in loops", "", sprintf("%d go statements in loops with a closure examined, %d writes to variables captured by reference", nGo, nWrites))
+	if nGo < 1 {
+		c.R.Break("R-fanout-write: no goroutine started in a loop with a closure found (the rule has nothing to look at)")
+	}
 }
